@@ -1375,6 +1375,37 @@ func init() {
 				}
 				return true
 			})
+			// a second obligation: no exemption keyed by NAME (file-wide)
+			var nameSet ast.Node
+			ast.Inspect(lit.Body, func(n ast.Node) bool {
+				is, ok := n.(*ast.IfStmt)
+				if !ok || len(is.Body.List) == 0 {
+					return true
+				}
+				if _, isRet := is.Body.List[len(is.Body.List)-1].(*ast.ReturnStmt); !isRet {
+					return true
+				}
+				ast.Inspect(is.Cond, func(m ast.Node) bool {
+					ix, ok := m.(*ast.IndexExpr)
+					if !ok {
+						return true
+					}
+					if mt, ok := info.TypeOf(ix.X).Underlying().(*types.Map); ok {
+						if b, ok := mt.Key().Underlying().(*types.Basic); ok && b.Kind() == types.String {
+							nameSet = is
+						}
+					}
+					return true
+				})
+				return true
+			})
+			o2 := Obligation{Rule: rid, Func: "lint.AnalyzerUserArity", Construct: "no file-wide exemption by name", Pos: c.Pos(lit.Pos()), Nontrivial: true}
+			if nameSet != nil {
+				o2.Pos = c.Pos(nameSet.Pos())
+				o2.Verdict, o2.Detail = Violated, "a call is exempted because its head's NAME is in a set built over the whole file: one parameter or let variable called f anywhere switches off the arity check of every call of the global function f — (defun f (a) a) (defun g (f) f) (f 1 2) passes lint and fails at run time"
+			} else {
+				o2.Verdict, o2.Detail = Proved, "exemptions come from the resolved symbol and the node-keyed skip set only"
+			}
 			switch {
 			case bad != nil:
 				o.Pos = c.Pos(bad.Pos())
@@ -1384,7 +1415,7 @@ func init() {
 			default:
 				o.Verdict, o.Detail = Proved, "not produced by a package-agnostic scope lookup"
 			}
-			return []Obligation{o}
+			return []Obligation{o, o2}
 		}})
 }
 
